@@ -345,6 +345,13 @@ def run_impl(MX, sd, ac, st):
     """-> ('loads', None) | ('raises', class or None, repr)"""
     try:
         sc = gen.build_scene(MX, copy.deepcopy(sd), [("a", copy.deepcopy(ac), copy.deepcopy(st), {})])
+        if sd.get("solver", {}).get("type", "nonlinear") not in ("linear", "nonlinear", "scipy_fsolve"):
+            # "... and never yields loads": not after a drawing call either, which prepares part of what a solve needs
+            try:
+                os.environ.setdefault("MPLBACKEND", "Agg")
+                sc.display_wireframe(show_legend=False, filename=os.path.join(common.REPLAYS, "c19_wireframe.png"))
+            except Exception:
+                pass
         FM = sc.solve_forces(verbose=False)
         FM["a"]["total"]["FL"]
         return ("loads", None, "")
@@ -486,7 +493,12 @@ def run(chk):
                              ("distributions-no-extension", lambda: sc.distributions(filename=os.path.join(tmp, "dist_run7"))),
                              ("distributions-fragment", lambda: sc.distributions(filename=os.path.join(tmp, "d.cs"))),
                              ("export_stl", lambda: sc.export_stl(filename=os.path.join(tmp, "m.txt"))),
-                             ("export_vtk", lambda: sc.export_vtk(filename=os.path.join(tmp, "m.txt")))):
+                             ("export_vtk", lambda: sc.export_vtk(filename=os.path.join(tmp, "m.txt"))),
+                             # the required extension somewhere in the name, another one at its end
+                             ("distributions-contains", lambda: sc.distributions(filename=os.path.join(tmp, "d.csv.txt"))),
+                             ("distributions-directory", lambda: sc.distributions(filename=os.path.join(tmp, "run.csv_files", "d.txt"))),
+                             ("export_stl-contains", lambda: sc.export_stl(filename=os.path.join(tmp, "m.stl.txt"))),
+                             ("export_vtk-contains", lambda: sc.export_vtk(filename=os.path.join(tmp, "m.vtk.bak")))):
                 if not raises(f):
                     bad.append("extension:" + label)
             for b_ in bad:
@@ -539,7 +551,9 @@ def run(chk):
              'match resolve_name ["a"; "b"] (Some "zz") with CallRaises => true | _ => false end',
              'match resolve_name [] None with CallRaises => true | _ => false end',
              'negb (trim_control_ok ["aileron"; "elevator"; "rudder"] "flaperon")', 'trim_control_ok ["aileron"; "elevator"; "rudder"] "elevator"',
-             'negb (extension_ok ".csv" "d.json")', 'negb (extension_ok ".stl" "m.txt")', 'extension_ok ".vtk" "out/m.vtk"']
+             'negb (extension_ok ".csv" "d.json")', 'negb (extension_ok ".stl" "m.txt")', 'extension_ok ".vtk" "out/m.vtk"',
+             'negb (ends_with ".csv" "d.csv.txt")', 'negb (ends_with ".csv" "run.csv_files/d.txt")', 'negb (ends_with ".stl" "m.stl.txt")',
+             'negb (ends_with ".vtk" "m.vtk.bak")', 'ends_with ".vtk" "out/m.vtk"', 'negb (ends_with ".csv" "dist_run7")']
     f3, _, e3 = common.run_cases("C19api", imports, defs, exprs)
     for e in e3:
         chk.fail_obligation("correspondence:C19api-coqc", e)
